@@ -196,7 +196,12 @@ class E1:
                 if first_file_q is None:
                     first_file_q = q
                 cross = self.cross_every and (idx % self.cross_every == 0) and first_file_q is q
-                r = solve(q["file"], self.cap, both=cross)
+                if q.get("basis_candidate"):
+                    # a unit/zero vector violates a goal (native DAG evaluation): do not wait for the
+                    # slow satisfiable side of the general query, have the solver confirm the pinned witness
+                    r = {"verdict": "candidate", "by_solver": {}, "secs": 0.0}
+                else:
+                    r = solve(q["file"], self.cap, both=cross)
                 qr.update(vars=q["vars"], cone=q["cone"], bytes=q["bytes"], verdict=r["verdict"], by_solver=r["by_solver"], secs=r["secs"])
                 if cross:
                     qr["cross_checked"] = True
